@@ -222,6 +222,25 @@ Theorem C09_day_milliseconds_nearest : forall h mi s us, time_ok h mi s us ->
 Proof. exact day_milliseconds_nearest. Qed.
 Print Assumptions C09_day_milliseconds_nearest.
 
+(* binary_complement: the default mask inverts every bit; applying it twice is the identity; the length
+   is kept for every mask; the value is the one's complement on len(s) bits *)
+Theorem C09_binary_complement_default : forall s, binary_complement s [] = map negb s.
+Proof. exact binary_complement_default. Qed.
+Print Assumptions C09_binary_complement_default.
+
+Theorem C09_binary_complement_involutive : forall s, binary_complement (binary_complement s []) [] = s.
+Proof. exact binary_complement_involutive. Qed.
+Print Assumptions C09_binary_complement_involutive.
+
+Theorem C09_binary_complement_length : forall s mask, length (binary_complement s mask) = length s.
+Proof. exact binary_complement_length. Qed.
+Print Assumptions C09_binary_complement_length.
+
+Theorem C09_binary_complement_value : forall s,
+  int2 (binary_complement s []) = 2 ^ Z.of_nat (length s) - 1 - int2 s.
+Proof. exact binary_complement_value. Qed.
+Print Assumptions C09_binary_complement_value.
+
 Example C09_ex_str : string_to_int [254; 255] true = Some (-2) /\ string_to_int [254; 256] true = None
   /\ uint_to_string 657 4 false = Some [0; 0; 2; 145] /\ time_ok 23 59 59 999500.
 Proof. repeat split; unfold time_ok; lia. Qed.
